@@ -11,7 +11,8 @@ RULE = ("APIs: apis.conventional extended with a recursive tree (nested, mutuall
         "the next one), resource references (type / child_type, "
         "message-level and file-level), a second service and a third file that vanish, LRO and paged RPCs, streaming RPCs; a "
         "compute-style API with an extended-operation polling service, REST and gRPC+asyncio (also with a polling chain that loops); an API using its own "
-        "dependency package; the former DESIGN 9 no. 4 counterexample and the internal-polling one (corpus/C16, run first). Configurations: for each API subsets of RPC selectors (singletons, one "
+        "dependency package, including dependency messages that carry resource references (type / child_type, down to depth 3) to "
+        "resources whose messages are in the target package; the former DESIGN 9 no. 4 counterexample and the internal-polling one (corpus/C16, run first). Configurations: for each API subsets of RPC selectors (singletons, one "
         "whole service, all, all-but-one, half, pairs, LRO/list only) x generate_omitted_as_internal in {false,true}, plus empty "
         "list, unknown method, other-version entry, duplicate version, prefix version, two entries. A case is one (API, settings) "
         "pair at schema level (API.build) or library level (generate + import + drive); distinct = distinct canonical JSON of "
@@ -137,6 +138,9 @@ def build_apis(ctx, n_random):
         rq = U.chain_api(depth, rev)
         out.append({"name": f"chain{depth}{'r' if rev else 'f'}", "req": rq, "transport": "grpc", "knobs": {"enclosing_chain", f"chain_depth={depth}"},
                     "e2e": rev or depth == 2 or ctx.tier != "quick", "invalid": rev, "first": [[U.target_package(rq) + ".Library.GetFoo"]]})
+    rd = U.depref_api()
+    out.append({"name": "depref", "req": rd, "transport": "grpc", "knobs": {"dep_package", "dep_resource_ref"}, "e2e": True, "invalid": False,
+                "first": [[U.target_package(rd) + ".Library.CheckOut"]]})
     # dedicated APIs built on the shared random generator: the first valid candidate of a fixed rng sequence; a candidate
     # that is not a valid descriptor set is an invalid candidate (skipped and counted), never a failure of the check
     def dedicated(name, make, tag):
@@ -151,7 +155,7 @@ def build_apis(ctx, n_random):
         out.append({"name": "subpackage", "req": got[0], "transport": "grpc", "knobs": {"proto_subpackage"}, "e2e": True, "first": got[1]})
     got = dedicated("dep-package", U.dep_package_api, "C16-dep")
     if got:
-        out.append({"name": "dep-package", "req": got[0], "transport": "grpc", "knobs": got[1], "e2e": False})
+        out.append({"name": "dep-package", "req": got[0], "transport": "grpc", "knobs": got[1], "e2e": True, "first": got[2][:1]})
 
     def multifile(r):
         api, knobs = U.conventional_plus(r, file_shapes=True)
@@ -385,6 +389,26 @@ def schema_oracle(ctx, api, it, obs):
 
 
 # ------------------------------------------------------------------ library level: T1 + oracle
+def write_dep_pb2(req, root):
+    """<pkg>/<file>_pb2.py for every dependency file that is not an installed one: the lines protoc would emit
+    around the serialized FileDescriptorProto (there is no protoc here)."""
+    pkg = U.target_package(req)
+    std = apigen.std_files()
+    for fp in req.proto_file:
+        if fp.package.startswith(pkg) or fp.name in std:
+            continue
+        imports = "".join(f"import {d[:-len('.proto')].replace('/', '.')}_pb2  # noqa\n" for d in fp.dependency)
+        modname = fp.name[:-len(".proto")].replace("/", ".") + "_pb2"
+        path = os.path.join(root, fp.name[:-len(".proto")] + "_pb2.py")
+        os.makedirs(os.path.dirname(path), exist_ok=True)
+        with open(path, "w") as f:
+            f.write("from google.protobuf import descriptor_pool as _descriptor_pool\n"
+                    "from google.protobuf.internal import builder as _builder\n" + imports +
+                    f"DESCRIPTOR = _descriptor_pool.Default().AddSerializedFile({fp.SerializeToString()!r})\n"
+                    "_globals = globals()\n_builder.BuildMessageAndEnumDescriptors(DESCRIPTOR, _globals)\n"
+                    f"_builder.BuildTopDescriptorsAndMessages(DESCRIPTOR, {modname!r}, _globals)\n")
+
+
 def lib_package(files):
     cands = sorted((n for n in files if n.endswith("/gapic_metadata.json")), key=lambda n: (n.count("/"), n))
     if not cands:
@@ -439,6 +463,7 @@ def run_library(ctx, libs):
         if res is not None:
             lb["files"] = gen.files_of(res)
             roots[k] = gen.materialize(res, os.path.join(d, f"out{k}"))
+            write_dep_pb2(lb["api"]["req"], roots[k])
             lb["libpkg"], lb["meta"] = lib_package(lb["files"])
     insp = gen.pmap(lambda k: gen.impl("selective_inspect", {"root": roots[k], "package": libs[k]["libpkg"]}) if libs[k].get("libpkg") else None, list(roots))
     for k, o in zip(list(roots), insp):
@@ -750,25 +775,28 @@ def library_t1(ctx, lb, per_api_graph):
 def run(ctx):
     import time
     t0 = time.time()
-    apis_ = build_apis(ctx, ctx.n(3, 30))
+    apis_ = build_apis(ctx, ctx.n(2, 30))
     schema_items, libs = [], []
     for ai, api in enumerate(apis_):
         r = env.rng("C16-cfg", ai)
-        cfgs = configs_for(r, api["req"], ctx.n(4, 12), invalid=api.get("invalid", True), first=api.get("first", ()))
+        # quick: two generic subsets per API (plus the forced ones), the invalid/edge configurations on four APIs only
+        inv_default = ctx.tier != "quick" or api["name"] in ("witness", "multifile", "conv0", "extended")
+        cfgs = configs_for(r, api["req"], ctx.n(2, 12), invalid=api.get("invalid", True) and inv_default, first=api.get("first", ()))
         for label, settings, intent in cfgs:
             schema_items.append({"api": api, "label": label, "settings": settings, "intent": intent})
-        if api["e2e"]:
+        # quick: the corpus already runs witness / extended with the configurations that matter, at library level
+        if api["e2e"] and not (ctx.tier == "quick" and api["name"] in ("witness", "extended")):
             libs.append({"api": api, "label": "full", "settings": None, "intent": "full"})
             valid = [c for c in cfgs if c[2] == "valid"]
             bad = [c for c in cfgs if c[2] in ("unknown", "other_version", "dup")]
-            nv, nb = ctx.n(4, 8), ctx.n(1, 2)
+            nv, nb = ctx.n(2, 8), ctx.n(1, 2)
             if api["name"] in ("witness", "extended", "extended-cyclic"):
                 nv = ctx.n(2, 4)
             if api["name"] == "extended-grpc":
                 nv = 0
             if api["name"].startswith("chain"):
                 nv = 0
-            nv += 2 * len(api.get("first", ()))
+            nv += 2 * min(len(api.get("first", ())), ctx.n(2, 99))
             for label, settings, intent in valid[:nv] + r.sample(bad, min(nb, len(bad))):
                 libs.append({"api": api, "label": label, "settings": settings, "intent": intent})
     # corpus first: minimised witnesses of the known findings (and anything triage added)
@@ -828,16 +856,16 @@ def replay(ctx, rep):
 
 def search(ctx, broken):
     """A theorem or correspondence broke without an oracle failure: look harder near the disagreement."""
-    apis_ = build_apis(ctx, 12)
+    apis_ = build_apis(ctx, 4)
     items, libs = [], []
     for ai, api in enumerate(apis_):
         r = env.rng("C16-search", ai)
-        cfgs = configs_for(r, api["req"], 10, first=api.get("first", ()))
+        cfgs = configs_for(r, api["req"], 5, invalid=False, first=api.get("first", ()))
         for label, settings, intent in cfgs:
             items.append({"api": api, "label": label, "settings": settings, "intent": intent})
-        if api["e2e"] and ai < 8:
+        if api["e2e"] and api["name"].startswith(("conv", "multifile", "depref", "subpackage")):
             libs.append({"api": api, "label": "full", "settings": None, "intent": "full"})
-            for label, settings, intent in [c for c in cfgs if c[2] == "valid"][:6]:
+            for label, settings, intent in [c for c in cfgs if c[2] == "valid"][:4]:
                 libs.append({"api": api, "label": label, "settings": settings, "intent": intent})
     before = len(ctx.obligations)
     run_schema(ctx, items)
